@@ -23,11 +23,14 @@ Fixpoint toks (n : node) : list tok :=
 Fixpoint ftoks (l : list node) : list tok :=
   match l with [] => [] | c :: r => toks c ++ ftoks r end.
 
-Definition unit_eqb (a b : unit16) : bool :=
-  match a, b with
-  | UBmp x, UBmp y | UHi x, UHi y | ULo x, ULo y => N.eqb x y
-  | _, _ => false
+(* the 16-bit value of a code unit: two different astral characters may share their high surrogate *)
+Definition unit_val (u : unit16) : N :=
+  match u with
+  | UBmp c => c
+  | UHi c => (55296 + (c - 65536) / 1024)%N
+  | ULo c => (56320 + (c - 65536) mod 1024)%N
   end.
+Definition unit_eqb (a b : unit16) : bool := N.eqb (unit_val a) (unit_val b).
 
 Definition tok_eqb (a b : tok) : bool :=
   match a, b with
